@@ -77,11 +77,11 @@ theorem generate_row_correct (m : Mode) (en : Endian) (format : Format) (addrSiz
     (base : Nat) (prev row : WRow)
     (henc : EncOk e) (hasz : addrSize = 1 ∨ addrSize = 2 ∨ addrSize = 4 ∨ addrSize = 8)
     (hprev : prev.cleared = prev) (hstep : StepOk e addrSize base prev row) :
-    ∃ is, generateRow m e prev row = .ok (is, row.cleared) ∧ ∀ rest : List Instr,
-      traceInstrs (readerParams en format addrSize e) (rowOf e.version base prev)
+    ∃ is, generateRow m e prev row = .ok (is, row.cleared) ∧ ∀ (inSeq : Bool) (rest : List Instr),
+      traceInstrs (readerParams en format addrSize e) (rowOf e.version base prev) inSeq
           (is.map (WInstr.toInstr e.version) ++ rest) =
         Ev.row (rowOf e.version base row) ::
-          traceInstrs (readerParams en format addrSize e) (rowOf e.version base row.cleared) rest := by
+          traceInstrs (readerParams en format addrSize e) (rowOf e.version base row.cleared) true rest := by
   obtain ⟨hb1, hb2, hrng, hlr, hmin, hmax⟩ := henc
   obtain ⟨hal1, hal2, hop1, hop2, hle, hsame, hfit, hl1, hl2, haddr⟩ := hstep
   let h := readerParams en format addrSize e
@@ -134,12 +134,13 @@ theorem generate_row_correct (m : Mode) (en : Endian) (format : Format) (addrSiz
   refine ⟨resetFieldInstrs row ++ stickyFieldInstrs prev row ++ ais, ?_, ?_⟩
   · unfold generateRow
     simp only [hla, hoa, hadv, Out.bind_ok, Out.pure_eq]
-  · intro rest
+  · intro inSeq rest
     simp only [List.map_append, List.append_assoc]
-    rw [trace_resetFields h e.version (rowOf e.version base prev) row _
+    rw [trace_resetFields h e.version (rowOf e.version base prev) inSeq row _
       ⟨hcl.1, hcl.2.1, hcl.2.2.1, hcl.2.2.2⟩]
-    rw [trace_stickyFields h e.version ra prev row _ rfl rfl rfl rfl]
+    rw [trace_stickyFields h e.version ra inSeq prev row _ rfl rfl rfl rfl]
     rw [htr, reset_rowOf]
+    rfl
 
 /-! ## special opcodes are special opcodes; what `new` accepts -/
 
@@ -364,14 +365,14 @@ theorem program_bytes_roundtrip (h : Params) (hh : WriterHeader h) (is : List WI
     (henc : ∀ i ∈ is, i.Encodable h.version)
     (bs : Bytes) (hw : writeInstrs h.endian h.version h.addrSize is = .ok bs) :
     decodeAll h (bs.length + 1) bs = .ok (is.map (WInstr.toInstr h.version)) ∧
-    trace h bs = traceInstrs h (Row.new h) (is.map (WInstr.toInstr h.version)) := by
+    trace h bs = traceInstrs h (Row.new h) false (is.map (WInstr.toInstr h.version)) := by
   have hd := writeInstrs_decodeAll h hh is henc
     (fun v rest hv => by
       have := henc _ hv
       exact Leb.signed_roundtrip v this.1 this.2 rest) bs hw (bs.length + 1) (by omega)
   refine ⟨hd, ?_⟩
   unfold trace
-  rw [traceLoop_decodeAll h _ _ _ _ hd, reset_new]
+  rw [traceLoop_decodeAll h _ _ _ _ _ hd, reset_new]
 
 /-- concrete signed LEB128 round trips (instances of `Leb.signed_roundtrip`) -/
 example : ∀ v ∈ [(0 : Int), 1, -1, 63, 64, -64, -65, 300, -300, 8191, 8192, -8192, -8193,
@@ -396,14 +397,14 @@ pushes one `DW_LNE_set_address(a)` and restarts the previous row's `address_offs
 the reader, executing it, is in the state that corresponds to that new previous row **with base
 `a`** — so offsets of the following rows are relative to `a`. -/
 theorem set_address_correct (en : Endian) (format : Format) (addrSize : Nat) (p : Prog) (base a : Nat)
-    (rest : List Instr) (hlo : base + p.prevRow.addressOffset ≤ a) (hhi : a < minTombstone addrSize) :
+    (inSeq : Bool) (rest : List Instr) (hlo : base + p.prevRow.addressOffset ≤ a) (hhi : a < minTombstone addrSize) :
     let p' := p.setAddress (some a)
     p'.instrs = p.instrs ++ [.setAddress (some a)] ∧
     p'.prevRow = { p.prevRow with addressOffset := 0, opIndex := 0 } ∧ p'.row = p.row ∧
     p'.inSequence = true ∧
-    traceInstrs (readerParams en format addrSize p.enc) (rowOf p.enc.version base p.prevRow)
+    traceInstrs (readerParams en format addrSize p.enc) (rowOf p.enc.version base p.prevRow) inSeq
         ((WInstr.setAddress (some a)).toInstr p.enc.version :: rest) =
-      traceInstrs (readerParams en format addrSize p.enc) (rowOf p.enc.version a p'.prevRow) rest := by
+      traceInstrs (readerParams en format addrSize p.enc) (rowOf p.enc.version a p'.prevRow) inSeq rest := by
   refine ⟨rfl, rfl, rfl, rfl, ?_⟩
   rw [traceInstrs]
   have h1 : ¬ a < base + p.prevRow.addressOffset := by omega
@@ -430,12 +431,13 @@ theorem end_sequence_correct (m : Mode) (en : Endian) (format : Format) (addrSiz
     (hmin : 1 ≤ e.minInstLen) (hmax : 1 ≤ e.maxOps)
     (hasz : addrSize = 1 ∨ addrSize = 2 ∨ addrSize = 4 ∨ addrSize = 8)
     (hend : EndOk e addrSize base prev row off) :
-    ∃ is, endSequence m e prev row off = .ok is ∧ ∀ rest : List Instr,
-      traceInstrs (readerParams en format addrSize e) (rowOf e.version base prev)
+    ∃ is, endSequence m e prev row off = .ok is ∧ ∀ (inSeq : Bool) (rest : List Instr),
+      traceInstrs (readerParams en format addrSize e) (rowOf e.version base prev) inSeq
           (is.map (WInstr.toInstr e.version) ++ rest) =
         Ev.row { rowOf e.version base prev with address := base + off, opIndex := row.opIndex,
                                                 endSequence := true } ::
-          traceInstrs (readerParams en format addrSize e) (Row.new (readerParams en format addrSize e)) rest := by
+          traceInstrs (readerParams en format addrSize e) (Row.new (readerParams en format addrSize e))
+            false rest := by
   obtain ⟨hal1, hal2, hop1, hop2, hle, hsame, hfit, haddr⟩ := hend
   let h := readerParams en format addrSize e
   let row' : WRow := { row with addressOffset := off }
@@ -462,21 +464,22 @@ theorem end_sequence_correct (m : Mode) (en : Endian) (format : Format) (addrSiz
         ((prev.opIndex + ((off - prev.addressOffset) / e.minInstLen * e.maxOps +
           row.opIndex - prev.opIndex)) / e.maxOps) = base + off := by omega
     rw [this]
-  have hend_exec : ∀ (rest : List Instr) (r : Row), r.tombstone = false → r.endSequence = false →
-      traceInstrs h r (Instr.endSequence :: rest) =
-        Ev.row { r with endSequence := true } :: traceInstrs h (Row.new h) rest := by
-    intro rest r hnt _
+  have hend_exec : ∀ (inSeq : Bool) (rest : List Instr) (r : Row), r.tombstone = false →
+      r.endSequence = false →
+      traceInstrs h r inSeq (Instr.endSequence :: rest) =
+        Ev.row { r with endSequence := true } :: traceInstrs h (Row.new h) false rest := by
+    intro inSeq rest r hnt _
     rw [traceInstrs]
-    simp [execute, hnt, reset]
+    simp [execute, hnt, reset, skipRow]
   refine ⟨(if oa ≠ 0 then [WInstr.advancePc oa] else []) ++ [.endSequence], ?_, ?_⟩
   · unfold endSequence
     rw [show opAdvance m e prev { row with addressOffset := off } = _ from hoa]
     rfl
-  · intro rest
+  · intro inSeq rest
     by_cases hz : oa = 0
     · simp only [hz, ne_eq, not_true_eq_false, ↓reduceIte, List.nil_append, List.map_cons,
         List.map_nil, WInstr.toInstr, List.cons_append]
-      rw [hend_exec rest _ rfl rfl]
+      rw [hend_exec inSeq rest _ rfl rfl]
       have heq := hadv
       rw [hz, advBy_zero h _ hop1] at heq
       have ha : base + prev.addressOffset = base + off := congrArg Row.address heq
@@ -488,7 +491,7 @@ theorem end_sequence_correct (m : Mode) (en : Endian) (format : Format) (addrSiz
       have hx := exec_advancePc h (rowOf e.version base prev) oa rfl hsz hmax hop1
         (by show prev.opIndex + _ < 2 ^ 64; omega)
         (by rw [hadv]; exact haddr)
-      rw [trace_noEmit h _ _ _ _ hx, hadv, hend_exec rest _ rfl rfl]
+      rw [trace_noEmit h _ _ inSeq _ _ hx, hadv, hend_exec inSeq rest _ rfl rfl]
 
 /-- `Prog.endSequence` resets the writer's rows to the initial state and leaves the sequence -/
 theorem end_sequence_resets (m : Mode) (p p' : Prog) (off : Nat) (h : p.endSequence m off = .ok p') :
@@ -529,18 +532,19 @@ theorem genRows_correct (m : Mode) (en : Endian) (format : Format) (addrSize : N
       ChainOk p.enc addrSize base p.prevRow rows →
       ∃ p' is, genRows m p rows = .ok p' ∧ p'.instrs = p.instrs ++ is ∧ p'.enc = p.enc ∧
         p'.prevRow = lastRow p.prevRow rows ∧ (rows ≠ [] → p'.row = p'.prevRow) ∧
-        (rows = [] → p'.row = p.row) ∧ p'.prevRow.cleared = p'.prevRow ∧ ∀ rest : List Instr,
-        traceInstrs (readerParams en format addrSize p.enc) (rowOf p.enc.version base p.prevRow)
+        (rows = [] → p'.row = p.row) ∧ p'.prevRow.cleared = p'.prevRow ∧
+        ∀ (inSeq : Bool) (rest : List Instr),
+        traceInstrs (readerParams en format addrSize p.enc) (rowOf p.enc.version base p.prevRow) inSeq
             (is.map (WInstr.toInstr p.enc.version) ++ rest) =
           rows.map (fun r => Ev.row (rowOf p.enc.version base r)) ++
             traceInstrs (readerParams en format addrSize p.enc)
-              (rowOf p.enc.version base (lastRow p.prevRow rows)) rest := by
+              (rowOf p.enc.version base (lastRow p.prevRow rows)) (inSeq || !rows.isEmpty) rest := by
   intro rows
   induction rows with
   | nil =>
     intro p _ hcl _
     exact ⟨p, [], rfl, by simp, rfl, rfl, fun h => absurd rfl h, fun _ => rfl, hcl,
-      fun rest => by simp [lastRow]⟩
+      fun inSeq rest => by simp [lastRow]⟩
   | cons r rs ih =>
     intro p henc hcl hchain
     obtain ⟨hstep, hrest⟩ := hchain
@@ -565,11 +569,15 @@ theorem genRows_correct (m : Mode) (en : Endian) (format : Format) (addrSize : N
         subst hg2
         rfl
       · exact hrow hrs
-    · intro rest
+    · intro inSeq rest
       simp only [List.map_append, List.append_assoc, List.map_cons, List.cons_append]
       rw [htr]
       congr 1
-      exact htr2 rest
+      have h2 := htr2 true rest
+      rw [Bool.true_or] at h2
+      have e : (inSeq || !(r :: rs).isEmpty) = true := by simp
+      rw [e]
+      exact h2
 
 
 /-- `set_address(a); (row() = r; generate_row())*; end_sequence(off)` -/
@@ -584,7 +592,7 @@ rows each of which is a legal successor of the one before (`ChainOk`, offsets re
 start address) and every legal end offset (`EndOk`):
 `set_address`, the `generate_row` calls and `end_sequence` succeed, append instructions `is`, put
 the writer back into the between-sequences state, and the reader — started in its own initial
-state — executing `is` returns **exactly the requested rows, in order, then one `end_sequence`
+state (whatever `in_sequence` flag `LineRows` carries) — executing `is` returns **exactly the requested rows, in order, then one `end_sequence`
 row at `a + off`, and is back in its initial state** for whatever follows (`rest`): the next
 sequence starts from a clean slate on both sides. -/
 theorem sequence_roundtrip (m : Mode) (en : Endian) (format : Format) (addrSize : Nat) (p : Prog)
@@ -600,12 +608,12 @@ theorem sequence_roundtrip (m : Mode) (en : Endian) (format : Format) (addrSize 
     let last := lastRow (WRow.initial p.enc) rows
     ∃ p' is, writeSequence m p a rows off = .ok p' ∧ p'.instrs = p.instrs ++ is ∧
       p'.prevRow = WRow.initial p.enc ∧ p'.row = WRow.initial p.enc ∧ p'.inSequence = false ∧
-      ∀ rest : List Instr,
-      traceInstrs h (Row.new h) (is.map (WInstr.toInstr p.enc.version) ++ rest) =
+      ∀ (inSeq : Bool) (rest : List Instr),
+      traceInstrs h (Row.new h) inSeq (is.map (WInstr.toInstr p.enc.version) ++ rest) =
         rows.map (fun r => Ev.row (rowOf p.enc.version a r)) ++
           Ev.row { rowOf p.enc.version a last with address := a + off, opIndex := last.opIndex,
                                                    endSequence := true } ::
-            traceInstrs h (Row.new h) rest := by
+            traceInstrs h (Row.new h) false rest := by
   intro h last
   let p1 := p.setAddress (some a)
   have hp1prev : p1.prevRow = WRow.initial p.enc := by
@@ -646,8 +654,8 @@ theorem sequence_roundtrip (m : Mode) (en : Endian) (format : Format) (addrSize 
     simp
   · show WRow.initial p2.enc = _; rw [hp2enc]
   · show WRow.initial p2.enc = _; rw [hp2enc]
-  · intro rest
-    obtain ⟨_, _, _, _, hs5⟩ := set_address_correct en format addrSize p 0 a
+  · intro inSeq rest
+    obtain ⟨_, _, _, _, hs5⟩ := set_address_correct en format addrSize p 0 a inSeq
       ((is2 ++ is3).map (WInstr.toInstr p.enc.version) ++ rest)
       (by rw [hprev]; simp [WRow.initial]) ha
     have h0 : Row.new h = rowOf p.enc.version 0 p.prevRow := by
@@ -656,18 +664,18 @@ theorem sequence_roundtrip (m : Mode) (en : Endian) (format : Format) (addrSize 
     simp only [List.map_append, List.append_assoc, List.map_cons, List.cons_append,
       List.nil_append] at hs5 ⊢
     rw [hs5]
-    have this : traceInstrs (readerParams en format addrSize p.enc) (rowOf p.enc.version a p1.prevRow)
+    have this : traceInstrs (readerParams en format addrSize p.enc) (rowOf p.enc.version a p1.prevRow) inSeq
         (is2.map (WInstr.toInstr p.enc.version) ++ (is3.map (WInstr.toInstr p.enc.version) ++ rest)) =
         rows.map (fun r => Ev.row (rowOf p.enc.version a r)) ++
           traceInstrs (readerParams en format addrSize p.enc)
-            (rowOf p.enc.version a (lastRow p1.prevRow rows))
+            (rowOf p.enc.version a (lastRow p1.prevRow rows)) (inSeq || !rows.isEmpty)
             (is3.map (WInstr.toInstr p.enc.version) ++ rest) :=
-      htr2 (is3.map (WInstr.toInstr p.enc.version) ++ rest)
+      htr2 inSeq (is3.map (WInstr.toInstr p.enc.version) ++ rest)
     rw [show (p.setAddress (some a)).prevRow = p1.prevRow from rfl]
     rw [this]
     congr 1
     rw [hp1prev, ← h0]
-    exact htr3 rest
+    exact htr3 _ rest
 
 
 /-! ## the unit header, versions 2–4 -/
